@@ -232,6 +232,12 @@ Theorem C03_arena_compose_prune_preserves : forall alloc o tol pf L a t fa x,
     cev t' x = eval (compose (erase t) L) x.
 Proof. exact ACPruneCor.acompose_prune_cev. Qed.
 
+(* the replay oracle of the runner ignores the call number; cshape is what the runner's comparison decides *)
+Theorem C03_replay_oracle_index_free : forall log, ACPruneAll.lp_index_free (oracle_by_rows log).
+Proof. exact ACPruneAll.oracle_by_rows_index_free. Qed.
+Theorem C03_cshape_is_eqb_shape : forall x y, ACPruneRefine.cshape x y -> ctree_eqb_shape x y = true.
+Proof. exact ACPruneCor.cshape_eqb. Qed.
+
 (* non-vacuity: an arena, an lhs, the append allocator and a query-keyed oracle that meet every assumption; the run
    makes 6 LP calls, merges one grafted decision away (the terminal at index 3 disappears) and agrees with compose_prune *)
 Example C03_arena_compose_prune_nonvacuous :
